@@ -24,6 +24,36 @@ CLAIMED = {
              technique="TLA+ model checking (TLC) + trace validation of the real Executor", ref="§5 C10", engine="Eudoxia.tla+TraceExec.tla"),
  "C11": dict(text="Stated declaratively over the killed set (ties admit any order): victims are candidates, no kill if it fits, highest score first (u^2/a compared by exact cross-multiplication in BigNat), every kill needed, stop when it fits - invariants of Eudoxia.tla on configs with multi-victim kills, and evaluated by TraceExec.tla on the failed results of every over-capacity tick of driver-B pressure runs against the SPEC's per-container demand.",
              technique="TLA+ model checking (TLC) + trace validation of the real OOM killer", ref="§5 C11", engine="Eudoxia.tla+TraceExec.tla"),
+"C06": dict(text="The main loop's bookkeeping (created/assignment/suspension/failure/success counters, completion sweep that only looks in ticks with a result, finish tick) is a set of ghost variables of Sched.tla with invariants C06_NotWhileUnfinished / C06_FinishTick / C06_CompleteOnce / C06_Counters, model-checked for the transcribed policies over all small workloads; TraceSim.tla recounts every returned statistic (per-priority arrivals/completions, mean and numpy-linear p99 latency as exact rationals, throughput, container p99, counters, NaN for empty classes, uncontended duration) from the recorded events of run_simulator runs over random valid configurations and compares with what the run returned.",
+             technique="TLA+ model checking (TLC) of the main-loop bookkeeping + independent recount of recorded runs in TLA+", ref="§5 C06", engine="Sched.tla, TraceSim.tla",
+             note="Trusted: TLC, Json/IOUtils, the recording wrappers of harness/simrec.py. Latency statistics are compared in exact integer arithmetic with a tolerance of 2 micro-seconds."),
+ "C07": dict(text="Determinism of the composed specification (a fixed scenario of Sched.tla has exactly one behaviour: TLC reports states = depth) plus equality, decided in TraceEq.tla, of the canonical behaviours (arrivals, decisions, results per tick, statistics; ids renumbered by creation order) of the same simulation run twice in one process after other simulations and in fresh interpreters under different PYTHONHASHSEED values; arrival sub-behaviour equal under other scheduler/executor settings and different under another seed. The specification contributes least here (stated in DESIGN §5): the verdict is equality of observed behaviours under the model's projection.",
+             technique="TLA+ determinism check (TLC) + trace equality under the model's projection across processes and hash seeds", ref="§5 C07", engine="Sched.tla, TraceEq.tla",
+             note="Trusted: TLC, Json/IOUtils, harness/driver_det.canonical (projection). Hyperproperty over pairs of runs: covered for the sampled parameter sets only."),
+ "C08": dict(text="crash = \"\" and the admissibility contract (no pool oversold, no double or out-of-order assignment, only suspendable containers suspended) are invariants of Sched.tla for the transcribed naive, overbook, priority and priority-pool policies over all small workloads (witness runs show that suspensions and retries are reachable); every round of seeded scenarios through the REAL policy functions inside the unmodified run_simulator is validated by TraceSched.tla (contract on the observed pre-state) and STEPPED by TraceExec.tla (any raise or any command the executor specification rejects is a violation); random valid configurations incl. corner durations, 1-cpu/sub-GB pools and awkward probability triples come from the C06 driver.",
+             technique="TLA+ model checking (TLC) of the transcribed policies + trace validation of the real policies", ref="§5 C08", engine="Sched.tla+SchedContracts.tla, TraceSched.tla, TraceExec.tla"),
+ "C12": dict(text="Strict priority, work conservation, FIFO first container per class, and the preemption rules (only priority, victim not QUERY and at a boundary, only while a query waits, at most one per waiting query job) are contracts of SchedContracts.tla: invariants of the transcribed priority and priority-pool policies in Sched.tla (TLC finds the lost-work defect when the requeueShortSuspension switch is off; witnesses show suspensions/contention reachable) and clauses evaluated by TraceSched.tla on every round of real runs with contention and 1-tick and multi-tick suspensions. 'Offered again' follows from work conservation at the rounds after the suspension ended.",
+             technique="TLA+ model checking (TLC) of the transcribed policies + contract validation on traces of the real scheduler", ref="§5 C12", engine="Sched.tla+SchedContracts.tla, TraceSched.tla"),
+ "C16": dict(text="Pool-of-priority, no suspensions, retry-together and half-pool cut-off are contracts (ghost history: last failed container per pipeline, abandoned operators): invariants of the transcribed priority-pool policy over all small mixed-priority workloads (witness: retries reachable) and clauses of TraceSched.tla on real runs with OOM-prone DAG pipelines of all three priorities.",
+             technique="TLA+ model checking (TLC) of the transcribed policy + contract validation on traces of the real scheduler", ref="§5 C16", engine="Sched.tla+SchedContracts.tla, TraceSched.tla"),
+ "C17": dict(text="One container per pool and round, whole free pool, FIFO first container, no suspension, no work after a failure, single ready operator in single-operator mode: invariants of the transcribed naive policy in Sched.tla (multi-pool, both container modes, DAG shapes with failures) and clauses of TraceSched.tla on real runs.",
+             technique="TLA+ model checking (TLC) of the transcribed policy + contract validation on traces of the real scheduler", ref="§5 C17", engine="Sched.tla+SchedContracts.tla, TraceSched.tla"),
+ "C18": dict(text="Shape (one ready operator, one cpu, whole-pool RAM), cpu-bound container count, work conservation after a triggered round and three-strikes abandonment: invariants of the transcribed overbook policy composed with the executor under overcommit (pool-level kills included) and clauses of TraceSched.tla on real runs, which have no test at all in the repository.",
+             technique="TLA+ model checking (TLC) of the transcribed policy + contract validation on traces of the real scheduler", ref="§5 C18", engine="Sched.tla+SchedContracts.tla, TraceSched.tla"),
+ "C13": dict(text="The replay cursor is a state machine (TraceReplay.tla) checked over all sorted arrival sequences on a small grid; the mapping arrival -> tick is ReplayOps.CeilOK, an exact BigNat predicate that re-decides the harness's certificate ceil(a*tps). TraceReplayCheck.tla validates replays of thousands of CSV files (on/off grid, non-decimal rates, up to millions of ticks, several pipelines per arrival, arrivals beyond the end) by the real reader and gentrace round trips. The known finding D8 (float tick mapping) is matched by signature only.",
+             technique="TLA+ model checking (TLC) of the cursor + trace validation of the real reader with exact BigNat arithmetic", ref="§5 C13", engine="TraceReplay.tla+ReplayOps.tla, TraceReplayCheck.tla",
+             note="Trusted: TLC, Json/IOUtils. Known finding D8 is listed in known_findings.json and matched by (exactly one tick late AND IEEE evaluation of a/(1.0/tps) exceeds the exact tick)."),
+ "C14": dict(text="Parse/Unparse of CsvOps.tla: TLC checks Parse(Unparse(w)) = w, Unparse(Parse(r)) = r and refusal of eight rule mutations for all 97 656 small workloads; TraceCsv.tla checks that what the real writer wrote is Unparse of the workload, that the real reader agrees with Parse on those rows and returns the workload, that re-writing reproduces the rows, and that nine malformed variants are refused (any exception) while the untouched file is accepted.",
+             technique="TLA+ model checking (TLC) of the format + trace validation of the real writer/reader", ref="§5 C14", engine="CsvFormat.tla+CsvOps.tla, TraceCsv.tla",
+             note="Numeric cells are canonicalised to repr(float(text)) by the harness: numeric text fidelity is Python's float round trip, outside what TLA+ adds."),
+ "C15": dict(text="The arrival clock (event exactly wait+1 ticks after the previous one, wait = draw if positive else the mean) is a state machine checked by TLC; TraceGen.tla validates runs of the real generator whose RNG is wrapped in a logging proxy: counts, fresh ids, query/chain shapes, first-operator prototype, priority and operator count as dictated by the draws, later prototypes by the documented thresholds, and the ARGUMENTS of the draws (configured probabilities, num_operators, waiting mean, cpu_io_ratio); a same-seed ratio 0 / ratio 1 pair decides 'raising cpu_io_ratio shifts the mix' independently of the call pattern.",
+             technique="TLA+ model checking (TLC) of the arrival clock + trace validation of the real generator through an RNG proxy", ref="§5 C15", engine="Generator.tla+GenOps.tla, TraceGen.tla",
+             note="Distributional sentences are decided through draw arguments and a large-effect metamorphic pair, not by sampling statistics."),
+ "C19": dict(text="The bridge protocol (known / reported-complete sets, poll clock) is RestBridge.tla, model-checked; TraceRest.tla validates every request of runs driven over a loop-back HTTP server against the ground truth recorded at that moment (results, pool and container figures, operator states, key sets, no segment values), the protocol promises (call on event, idle spacing, disjoint, known exactly, complete exactly once), the reply against the executed commands, and the statistics against an in-process run issuing the same decisions.",
+             technique="TLA+ model checking (TLC) of the protocol + trace validation of the real bridge over loop-back HTTP", ref="§5 C19", engine="RestBridge.tla, TraceRest.tla",
+             note="The Go reference scheduler is not executed (no Go toolchain): a Python port of go/naive and a scripted universal scheduler are the decision sources."),
+ "C20": dict(text="snap and jitter as row transformations over exact rationals (Tools.tla): never up, less than one tick, on-grid unchanged, idempotent, bounds, ascending stable order - checked by TLC on a grid; TraceTools.tla validates runs of the real snap_command / jitter_command / _sensitivity_task on generated files with exact BigNat arithmetic on the decimal texts (floor certificates re-checked), incl. snapping twice, equal seeds, and sample i = gentrace(start_seed + i).",
+             technique="TLA+ model checking (TLC) + trace validation of the real tools with exact BigNat arithmetic", ref="§5 C20", engine="Tools.tla, TraceTools.tla"),
 }
 NOT_YET = "check not built yet in this session (DESIGN.md §9 build order); will be claimed when its TLA+ spec and conformance harness land"
 
